@@ -105,6 +105,7 @@ structure Ctx where
   noOob : Bool := false
   keepGoing : Bool := false
   isRedo : Bool := false          -- `redo` (always dirty) rather than `redo-ifchange`
+  crash : Option (Nat × Nat) := none  -- kill the whole process tree when the script of target `t` reaches step `k`
 
 def alwaysId : Nat := 0
 
@@ -187,6 +188,11 @@ def depsOf (w : World) (r : Rec) (f : Nat) : List Dep :=
   if r.isOverride || !r.isGenerated then []
   else (w.deps.filter (fun d => d.target = f)).mergeSort (fun a b => (w.recs a.source).row ≤ (w.recs b.source).row)
 
+/-- The same query also loads the `Files` row of every dependency at that moment; the loop over
+the dependencies later works on these copies, not on what the database holds by then. -/
+def depsWithRecs (w : World) (R : Nat) (r : Rec) (f : Nat) : List (Dep × Rec) :=
+  (depsOf w r f).map (fun d => (d, getRec w R d.source))
+
 /-- `File::add_dep` (insert or replace on the key (target, source)). -/
 def addDep (w : World) (t s : Nat) (m : Bool) : World :=
   let w := addKnown w s
@@ -209,12 +215,12 @@ inductive DR
 /-- The loop over recorded dependencies inside `private_is_dirty`; `chk` is the recursive
 call for an `m` dependency.  Returns `none` when every dependency is clean and nothing must be
 built first (the caller then marks the file checked). -/
-def goDeps (chk : World → List Nat → Nat → DR × World × List Nat) (hasCsum : Bool) (f : Nat) :
-    List Dep → World → List Nat → List Nat → Option DR × World × List Nat
+def goDeps (chk : World → List Nat → Nat → Rec → DR × World × List Nat) (hasCsum : Bool) (f : Nat) :
+    List (Dep × Rec) → World → List Nat → List Nat → Option DR × World × List Nat
   | [], w, cache, must => (if must.isEmpty then none else some (.need must), w, cache)
-  | d :: ds, w, cache, must =>
+  | (d, snap) :: ds, w, cache, must =>
     let (sub, w, cache) :=
-      if d.modeM then chk w cache d.source
+      if d.modeM then chk w cache d.source snap
       else (if existsF w d.source then DR.dirty else DR.clean, w, cache)
     match sub with
     | .cyclic => (some .cyclic, w, cache)
@@ -223,12 +229,13 @@ def goDeps (chk : World → List Nat → Nat → DR × World × List Nat) (hasCs
     | .need ts => goDeps chk hasCsum f ds w cache (must ++ ts)
 
 /-- `deps::private_is_dirty`.  `ood = true` is `redo-ood`'s variant, whose checked marks live
-in the in-memory `cache` instead of the database. -/
-def isDirty (ood : Bool) (R : Nat) : Nat → World → List Nat → Nat → Nat → List Nat → DR × World × List Nat
-  | 0, w, cache, _, _, _ => (.cyclic, w, cache)
-  | fuel + 1, w, cache, f, mx, seen =>
+in the in-memory `cache` instead of the database.  `pre` is the copy of the file's record the
+caller already holds (loaded together with its dependency list); `none` = load it now. -/
+def isDirty (ood : Bool) (R : Nat) : Nat → World → List Nat → Nat → Nat → List Nat → Option Rec → DR × World × List Nat
+  | 0, w, cache, _, _, _, _ => (.cyclic, w, cache)
+  | fuel + 1, w, cache, f, mx, seen, pre =>
     if f ∈ seen then (.cyclic, w, cache) else
-    let r := getRec w R f
+    let r := pre.getD (getRec w R f)
     if r.failed.isSome then (.dirty, w, cache) else
     match r.changed with
     | none => (.dirty, w, cache)
@@ -245,8 +252,8 @@ def isDirty (ood : Bool) (R : Nat) : Nat → World → List Nat → Nat → Nat 
           (if r.csum.isSome then .need [f] else .dirty, w, cache)
         else
           let mx' := max ch (r.checked.getD 0)
-          match goDeps (fun w cache s => isDirty ood R fuel w cache s mx' (f :: seen)) r.csum.isSome f
-              (depsOf w r f) w cache [] with
+          match goDeps (fun w cache s snap => isDirty ood R fuel w cache s mx' (f :: seen) (some snap)) r.csum.isSome f
+              (depsWithRecs w R r f) w cache [] with
           | (some dr, w, cache) => (dr, w, cache)
           | (none, w, cache) =>
             let w := if r.isOverride && !ood then ev w (.warnOverride f) else w
@@ -255,6 +262,10 @@ def isDirty (ood : Bool) (R : Nat) : Nat → World → List Nat → Nat → Nat 
 
 /-- Outcome of a command or job. -/
 abbrev Status := Int
+
+/-- Pseudo status of a command whose process tree was killed (SIGKILL): nothing after the kill
+instant happens, in any process. -/
+def CRASHED : Status := -9
 
 /-- First existing .do candidate; earlier ones are recorded as `c` dependencies, the chosen
 one as `m` (`paths::find_do_file`). -/
@@ -282,7 +293,7 @@ def stampRec (r : Rec) (R : Nat) (data : Content) : Rec :=
 Returns the script's status, whether `$3`/stdout output exists and its content. -/
 def runScript (E : Engine) (_d : Defects) (cx : Ctx) (t : Nat) (sc : Script) (w : World) :
     Status × Option Content × World :=
-  let cx' : Ctx := { runid := cx.runid, parent := some t, cycles := t :: cx.cycles, keepGoing := cx.keepGoing }
+  let cx' : Ctx := { runid := cx.runid, parent := some t, cycles := t :: cx.cycles, keepGoing := cx.keepGoing, crash := cx.crash }
   -- redo-always
   let w := if sc.always then
       let w := addDep w t alwaysId true
@@ -294,13 +305,14 @@ def runScript (E : Engine) (_d : Defects) (cx : Ctx) (t : Nat) (sc : Script) (w 
   if icErr then (1, none, w) else
   let w := sc.ifcreate.foldl (fun w f => addDep w t f false) w
   -- redo-ifchange commands, in order; `sh -e` stops at the first failure
-  let rec cmds : List (List Nat) → World → Status × World
-    | [], w => (0, w)
-    | c :: cs, w =>
+  let rec cmds : List (List Nat) → Nat → World → Status × World
+    | [], k, w => (if cx.crash = some (t, k) then CRASHED else 0, w)
+    | c :: cs, k, w =>
+      if cx.crash = some (t, k) then (CRASHED, w) else
       match E.ifchangeCmd cx' c w with
-      | (0, w) => cmds cs w
+      | (0, w) => cmds cs (k + 1) w
       | (rv, w) => (rv, w)
-  match cmds sc.ifchange w with
+  match cmds sc.ifchange 0 w with
   | (rv, w) =>
     if rv ≠ 0 then (rv, none, w) else
     let failNow := match sc.failIfOdd with
@@ -367,7 +379,7 @@ def startSelf (E : Engine) (d : Defects) (cx : Ctx) (t : Nat) (sf0 : Rec) (w : W
         | some n => (w.progs n.content).getD {}
         | none => {}
       match runScript E d cx t sc w with
-      | (rv, out, w) => recordNewState cx t sf rv out w
+      | (rv, out, w) => if rv = CRASHED then (CRASHED, w) else recordNewState cx t sf rv out w
 
 /-- `ifchange::should_build` (or the constant answer of `redo`).  `none` = the target already
 failed in this run (`ImmediateExit(EXIT_TARGET_FAILED)`). -/
@@ -376,7 +388,7 @@ def shouldBuild (cx : Ctx) (fuel : Nat) (t : Nat) (w : World) : Option DR × Wor
   let r := getRec w cx.runid t
   if isFailedR r cx.runid then (none, w)
   else
-    let (dr, w, _) := isDirty false cx.runid fuel w [] t cx.runid []
+    let (dr, w, _) := isDirty false cx.runid fuel w [] t cx.runid [] none
     let dr := match dr with
       | .need [x] => if x = t then DR.dirty else dr
       | x => x
@@ -420,7 +432,9 @@ def runTargets (E : Engine) (d : Defects) (cx : Ctx) (fuel : Nat) :
     if !cx.unlocked && t ∈ cx.cycles then (EXIT_CYCLIC_DEPENDENCY, w) else
     match buildJob E d cx fuel t w with
     | (.abort code, w) => (code, w)
-    | (.done rv, w) => runTargets E d cx fuel ts (t :: seen) (errored || rv ≠ 0) w
+    | (.done rv, w) =>
+      if rv = CRASHED then (CRASHED, w)       -- this process was killed too
+      else runTargets E d cx fuel ts (t :: seen) (errored || rv ≠ 0) w
 
 /-- `redo-ifchange targets…` as run by a script (or at top level when `cx.parent = none`). -/
 def ifchangeWith (E : Engine) (d : Defects) (fuel : Nat) (cx : Ctx) (ts : List Nat) (w : World) : Status × World :=
@@ -458,6 +472,7 @@ inductive UserOp
   | chmod (f : Nat)                      -- changes mode only
   | setProg (c : Content) (s : Script)   -- meaning of a .do content (given before it is written)
   | cmd (c : Cmd)
+  | crashCmd (ts : List Nat) (t k : Nat)   -- `redo-ifchange ts`, whole tree killed when t's script reaches step k
   deriving Repr
 
 def allocRun (w : World) : Nat × World := (w.runCounter + 1, { w with runCounter := w.runCounter + 1 })
@@ -501,7 +516,7 @@ def runCmd (d : Defects) (nfiles : Nat) (c : Cmd) (w : World) : Result × World 
     let rec go : List Nat → World → List Nat → List Nat → List Nat × World
       | [], w, _, acc => (acc.reverse, w)
       | f :: fs, w, cache, acc =>
-        let (dr, w, cache) := isDirty true R fuel w cache f R []
+        let (dr, w, cache) := isDirty true R fuel w cache f R [] none
         go fs w cache (if dr = .clean then acc else f :: acc)
     let (l, w') := go tgts w [] []
     -- redo-ood runs in a deferred transaction that is never committed: what the dirtiness
@@ -519,6 +534,12 @@ def applyOp (d : Defects) (nfiles : Nat) (op : UserOp) (w : World) : Option Resu
       | none => w)
   | .setProg c s => (none, { w with progs := fun x => if x = c then some s else w.progs x })
   | .cmd c => let (r, w) := runCmd d nfiles c w; (some r, w)
+  | .crashCmd ts t k =>
+    let (R, w) := allocRun w
+    let fuel := 2 * nfiles + 4
+    let cx : Ctx := { runid := R, crash := some (t, k) }
+    let (rv, w) := runTargets (engine d fuel) d cx fuel ts [] false w
+    (some { status := rv }, w)
 
 def initWorld (rules : Nat → List Nat) : World :=
   { fs := fun _ => none, recs := fun f => if f = alwaysId then { row := 1 } else {},
